@@ -271,7 +271,12 @@ BroadcastClauses(c) ==
      Chk("tree_broadcast_map:defined", (c.tbm.err = "") = ~IsErr(l)) \o
      (IF c.tbm.err = "" /\ ~IsErr(l) THEN
         LET oa == Owner(c.sa, l.spec)  ob == Owner(c.sb, l.spec) IN
-        Chk("tree_broadcast_map:calls", c.tbm.calls = [k \in DOMAIN oa |-> <<la[oa[k]], lb[ob[k]]>>]) ELSE <<>>)
+        Chk("tree_broadcast_map:calls", c.tbm.calls = [k \in DOMAIN oa |-> <<la[oa[k]], lb[ob[k]]>>]) \o
+        \* the with_path / with_accessor variants pass the path / accessor of the leaf in the COMMON SUFFIX first
+        Chk("tree_broadcast_map_with_path:calls", c.tbm_path.err = "" /\
+              c.tbm_path.calls = [k \in DOMAIN oa |-> <<Paths(l.spec)[k], la[oa[k]], lb[ob[k]]>>]) \o
+        Chk("tree_broadcast_map_with_accessor:calls", c.tbm_acc.err = "" /\
+              c.tbm_acc.calls = [k \in DOMAIN oa |-> <<ExpAccs(l.spec)[k], la[oa[k]], lb[ob[k]]>>]) ELSE <<>>)
 
 ComposeClauses(c) ==
   LET e == Compose(c.sa, c.sb) IN
@@ -324,7 +329,12 @@ MapCase(c) ==
          Chk("walk:one-call-per-node-in-post-order",
              Len(wl) = Len(nodes) /\ \A p \in DOMAIN nodes :
                  IF nodes[p].kind = NLEAF THEN wl[p].k = "leaf" /\ wl[p].x = fa.leaves[leafpos(p)]
-                 ELSE wl[p].k = "node" /\ wl[p].arity = nodes[p].arity) \o
+                 ELSE /\ wl[p].k = "node" /\ wl[p].arity = nodes[p].arity /\ wl[p].children_is_tuple
+                      \* f_node(type, node_data, children): the node's type and raw metadata
+                      /\ wl[p].ty = (IF nodes[p].kind = NNONE THEN 100
+                                     ELSE TypeTag(nodes[p].kind, IF nodes[p].kind = NCUSTOM THEN nodes[p].cls ELSE nodes[p].m))
+                      /\ wl[p].data.keys = nodes[p].keys
+                      /\ (nodes[p].kind \in {NDDICT, NDEQUE, NNT, NSS, NCUSTOM} => wl[p].data.m = nodes[p].m)) \o
          (IF c.traverse.err = "" THEN Chk("traverse:rebuilds", c.traverse.tree = Strip(c.a, c.cfg)) ELSE <<>>))
 
 \* ---- C10: transposition ----------------------------------------------------------------------
